@@ -90,6 +90,8 @@ def cases(rng, tier):
         out.append({"kind": "special", "shape": "memory-short", "variant": i, "seed": rng.getrandbits(32)})
     for i in range(2 if tier == "quick" else 6):
         out.append({"kind": "special", "shape": "extract-twice-same-dir", "variant": i, "seed": rng.getrandbits(32)})
+    for i in range(3 if tier == "quick" else 9):
+        out.append({"kind": "special", "shape": "self-overwrite-volume", "variant": i, "seed": rng.getrandbits(32)})
     return out
 
 
@@ -293,6 +295,36 @@ def _run_special(case):
                     viol.append({"key": "archive-modified/self-overwrite-via-link/%s" % kind, "what": "archive at <out>/%s/%s with members 'lnk' -> %r and a %s member 'lnk/%s', opened by %s, extractall(<out>) (%s): the archive %s" % (
                         sub, aname, sub, kind, aname, how, outcome, what)})
             cell = "special|self-overwrite-via-link|%s" % kind
+        elif shape == "self-overwrite-volume":
+            # an archive in volumes, a member named like one of them, extracted into the volumes' own directory (fifth hunt)
+            import multivolumefile
+
+            base = os.path.join(d, "arc.7z")
+            victim = "arc.7z.%04d" % (1 + var % 3)
+            with multivolumefile.open(base, "wb", volume=2048) as mv:
+                with py7zr.SevenZipFile(mv, "w", filters=[{"id": py7zr.FILTER_COPY}]) as z:
+                    z.writestr(r.randbytes(7000), "payload.bin")
+                    z.writestr(b"a member named like a volume " * 3, victim)
+            vols = sorted(fn for fn in os.listdir(d) if fn.startswith("arc.7z."))
+            h0 = {fn: hashlib.sha256(open(os.path.join(d, fn), "rb").read()).hexdigest() for fn in vols}
+            try:
+                with multivolumefile.open(base, "rb") as mv:
+                    with py7zr.SevenZipFile(mv, "r") as z:
+                        z.getnames()
+                        z.testzip()
+                        z.reset()
+                        z.extractall(path=d)
+                outcome = "completed"
+            except Exception as e:
+                outcome = "raised " + type(e).__name__
+            obs["file_hash_checks"] += len(vols)
+            obs["sessions"] += 1
+            h1 = {fn: (hashlib.sha256(open(os.path.join(d, fn), "rb").read()).hexdigest() if os.path.isfile(os.path.join(d, fn)) else None) for fn in vols}
+            changed = [fn for fn in vols if h1[fn] != h0[fn]]
+            if changed:
+                viol.append({"key": "archive-modified/self-overwrite-volume", "what": "archive of %d volumes holding a member %r, read through MultiVolume in mode 'r', extractall into the volumes' directory (%s): volume(s) %r changed" % (
+                    len(vols), victim, outcome, changed)})
+            cell = "special|self-overwrite-volume|%s" % victim[-4:]
         elif shape == "memory-short":
             # the extraction chunk is derived from the memory the machine reports: whatever it reports, verdicts and contents are those of a fresh session
             from py7zr import properties as P
